@@ -61,6 +61,19 @@ def gen(ctx):
                 cases.append(Case(size, data=data, driver=driver, workers=rng.choice([1, 2, 4]), bs=rng.choice([B, MiB, "noprogress"]),
                                   reflink=rng.choice(["auto", "never"]), prior=rng.choice(["absent", "absent", "same"]), flags=flags,
                                   label="neutral option"))
+    # sources whose st_blocks counts blocks that hold NO file data: the extent-tree blocks of a file with hundreds of extents,
+    # the separate block of a large extended attribute — `allocated` is not `data`
+    many = [(i * 64 * B, i * 64 * B + B) for i in range(345)]
+    for driver in ("parfile", "parblock"):
+        c = Case(10 * MiB, data=[(i * MiB, i * MiB + 2 * B) for i in range(8)], driver=driver, workers=rng.choice([1, 2, 4]), bs=rng.choice([B, MiB]),
+                 reflink="never", prior=rng.choice(["absent", "same"]), label="8 extents and a 2 KiB extended attribute")
+        c.xattr = {"user.big": b"x" * 2048}
+        cases.append(c)
+        cases.append(Case(345 * 64 * B, data=many, driver=driver, workers=rng.choice([1, 4]), bs=rng.choice([B, MiB]), reflink="never",
+                          label="345 extents"))
+        c = Case(345 * 64 * B, data=many, driver=driver, workers=2, bs=MiB, reflink="never", label="345 extents and an extended attribute")
+        c.xattr = {"user.big": b"y" * 3000, "user.small": b"z"}
+        cases.append(c)
     # overwriting a fully allocated destination (longer, and of EXACTLY the source's length: a refreshed image), both drivers
     for driver in ("parfile", "parblock"):
         cases.append(Case(4 * MiB, data=[(MiB, MiB + B)], driver=driver, workers=2, bs=MiB, prior="longer_dense"))
@@ -101,7 +114,7 @@ def nontrivial(case, o):
 def run(ctx, out):
     out.rule = ("sparse ext4 files with holes >= 1 MiB (leading, trailing, interleaved, empty, 41 extents = two FIEMAP pages), "
                 "block sizes below/above segment sizes, both drivers, workers 1..16, fresh and fully allocated prior "
-                "destinations (longer, shorter, and of exactly the source's length), with --fsync / --ownership / --no-perms / --no-timestamps on every density; plus runs over FIVE sparse files at once (tree and multi-source) in which FIEMAP / FICLONE / "
+                "destinations (longer, shorter, and of exactly the source's length), with --fsync / --ownership / --no-perms / --no-timestamps on every density, sources with hundreds of extents and with large extended attributes (metadata blocks counted by st_blocks); plus runs over FIVE sparse files at once (tree and multi-source) in which FIEMAP / FICLONE / "
                 "copy_file_range is refused for one of them: the others must stay sparse; non-trivial = the source is classified "
                 "sparse by st_blocks; distinct = distinct case tuple")
     out.assumptions.append("C11: block allocation by ext4 for the written ranges is observed (st_blocks), not proved")
